@@ -116,3 +116,17 @@ e1("C04", "Translation validation for list constraints (scalar/enum/object lists
           "call and list operation. Known findings (stale-size sum/product, membership in random-size lists, size-guarded neighbour access, "
           "constraints on invisible elements) are listed in known_findings.json.",
    "translation validation with size-guarded reference; quantified (exists invisible elements) over-constraint query; facade observation", "DESIGN.md section 6 C04")
+
+e1("C20", "Decided parts of solve_order: (i) z3 equivalence of the asserted formula with the reference for programs with ordering directives "
+          "(all constraints hold, satisfiability unchanged); (ii) every feasible value of each field lies in the domain its target is drawn from; "
+          "(iii) for every target t of a domain the constraints built by the real create_rand_domain_constraint/_build_swizzle_constraints force the "
+          "field to t inside the domain (t symbolic, widths 1..64); (iv) solver trace: ordered groups are tried in directive order in one solver context, "
+          "a randomising constraint is asserted only after a SAT check containing it, the final check is SAT. The frequency statement itself is not claimed.",
+   "translation validation + bound-map query + symbolic-target kernel (z3) + solver-trace ordering; frequencies not applicable", "DESIGN.md section 6 C20 / section 7")
+CHECKS["C15"] = dict(level=("other", "Decided parts of dist / weighted selection: (a) translation validation (E1): z3 equivalence of the asserted formula with "
+          "'field in the non-zero-weight entries, not in any zero-weight entry, and the other constraints' for all random-field values; (b) bounded symbolic "
+          "execution (E3) of the real distselect / randselect / next_target_range with symbolic weights (<= 2^40) and symbolic RNG draws: never a zero "
+          "weight, and two draws selecting the same entry are < w_i apart, so entry i owns exactly w_i of the `total` equally likely draws; (c) the dist "
+          "target constraint is f == val for symbolic val. Measured frequencies are not claimed.", "DESIGN.md section 6 C15 / section 7"),
+          note=E1_NOTE + " " + E3_NOTE, technique="translation validation (support) + symbolic execution of the selection kernels with z3; frequencies not applicable",
+          engine="E1 btor-mirror + E3 symex-lite")
